@@ -11,6 +11,7 @@ import json
 import os
 import random
 import threading
+import warnings
 
 from . import core
 from . import formula as F
@@ -22,6 +23,13 @@ BIND = {'p1': (3, 'one', 5, 7), 'p2': (30, 'two', 50, 70), 'p3': (300, 'three', 
 N = F.num
 
 
+def deep_calls(n, leaf):
+    t = leaf
+    for i in range(n):
+        t = F.call('ABS', t) if i % 2 else F.call('SUM', t, N('0'))
+    return t
+
+
 def outer_pool():
     return [
         F.binop('+', F.call('NEST', F.var('va')), F.binop('*', F.cell('B2'), N('2'))),
@@ -31,6 +39,7 @@ def outer_pool():
         F.binop('=', F.rng('A1', 'B2'), F.call('NEST', F.var('vb'), F.cell('A1'))),
         F.arr(F.var('va'), F.call('NEST', N('1')), F.cell('B2')),
         F.binop('+', F.call('SUM', F.rng('A1', 'B2')), F.call('SUM', F.rng('$B$2', 'c3'))),
+        F.binop('+', F.call('NEST', N('2')), deep_calls(70, F.cell('A1'))),       # 70 function calls deep, after the nesting point
     ]
 
 
@@ -45,6 +54,7 @@ def inner_pool():
         {'raw': '1+*'},                      # a syntax error
         {'raw': ''},                         # the empty formula
         F.binop('+', F.call('SUM', F.rng('B2', 'A1')), F.call('COUNT', F.rng('A3', 'B2'))),   # corners of the outer ranges, written the other way round
+        deep_calls(70, F.var('va')),
     ]
 
 
@@ -57,6 +67,13 @@ def env_for(p):
     env['rangesets'] = [{'key': F.cps('A1:B2'), 'vals': [enc([[a1, 1], [2, b2]])]},
                         {'key': F.cps('B2:C3'), 'vals': [enc([[b2, 3], [4, va]])]}]
     return env
+
+
+warnings.filterwarnings('ignore', message='host noise')
+
+
+def noisy(*a):
+    warnings.warn('host noise', RuntimeWarning)
 
 
 class World(object):
@@ -76,6 +93,9 @@ class World(object):
                 self.ev.append({'e': 'setfn', 'p': p, 'name': name, 'c': c})
             self.ev.append({'e': 'listen', 'p': p, 'kind': 'cell', 'sets': env['cellsets']})
             self.ev.append({'e': 'listen', 'p': p, 'kind': 'range', 'sets': env['rangesets']})
+            # a host whose listeners issue warnings (deprecations, data-quality notes): nobody's evaluation is disturbed by them
+            self.h[p].p.on('callCellValue', noisy)
+            self.h[p].p.on('callFunction', noisy)
 
     def parse(self, p, f, solo=None):
         text = f['raw'] if 'raw' in f else F.render(f)
@@ -359,6 +379,41 @@ def run_delegate(lib, case, attempt=0):
     return w.ev
 
 
+# ------------------------------------------------------------------ the first evaluations of a process, all at once
+
+COLD = ['AVERAGE(4,5,6)', 'DEC2HEX(255)', 'YEAR(DATE(2020,2,3))', 'INDEX({1,2,3},2)', 'PV(0.05,10,-100)>0', 'LEN("abc")&UPPER("x")',
+        'IF(ISNUMBER(va),SUM(va,1),0)', 'ROUND(2.567,2)', 'MATCH(2,{1,2,3},0)', 'MEDIAN(1,5,3)', 'COUNTIF({1,2,3},">1")', 'SIN(0)+va']
+
+
+def run_cold(lib, case):
+    """n threads in a fresh interpreter, each with its own parser, start evaluating at the same moment"""
+    import subprocess
+    n = case['n']
+    forms = [[COLD[(i + j * case['step']) % len(COLD)] for j in range(3)] for i in range(n)]
+    r = subprocess.run(['/venv/bin/python', os.path.join(core.VERIF, 'harness', 'c03_child.py'), core.lib_path(), core.VERIF,
+                        json.dumps(forms)], stdout=subprocess.PIPE, stderr=subprocess.DEVNULL, universal_newlines=True, timeout=300)
+    try:
+        outs = json.loads(r.stdout.strip().splitlines()[-1])
+    except Exception:
+        raise core.MachineryError('C03 cold-start child produced no result (rc=%s)' % r.returncode)
+    names = ['q%d' % (i + 1) for i in range(n)]
+    ev = []
+    solo = {}
+    sp = lib.Parser()
+    sp.set_variable('va', 3)
+    from .values import outcome
+    for i, name in enumerate(names):
+        ev.append({'e': 'setvar', 'p': name, 'name': 'va', 'v': enc(3)})
+    for i, name in enumerate(names):
+        for j, f in enumerate(forms[i]):
+            if f not in solo:
+                solo[f] = outcome(sp.parse(f))
+            o = outs[i][j] if outs[i] is not None else BLOCKED
+            ev.append({'e': 'parse', 'p': name, 'formula': f, 'ast': {'k': 'omit'}, 'out': o, 'events': [], 'calls': [],
+                       'solo': solo[f], 'checks': ['solo']})
+    return ev, names
+
+
 # ------------------------------------------------------------------ one handler object on several parsers
 
 SHARED_FORMS = [{'raw': 'A1+1'}, {'raw': 'SUM(A1,B2)&va'}]
@@ -495,8 +550,8 @@ def main(tier, replay=None):
                        'callbacks return normally']
     if replay:
         case = json.load(open(replay))['case']
-        if case['kind'] == 'crowd':
-            ev, names = run_crowd(lib, case)
+        if case['kind'] in ('crowd', 'cold'):
+            ev, names = run_crowd(lib, case) if case['kind'] == 'crowd' else run_cold(lib, case)
             core.validate_hist(run, [{'tid': 1, 'ev': ev, 'case': case}], 'replay', consts, engine='c03', parsers=names)
             return run.finish()
         ev = run_nested(lib, case)[0] if case['kind'] == 'nest' else run_shared(lib, case) if case['kind'] == 'shared' \
@@ -608,6 +663,14 @@ def main(tier, replay=None):
         core.validate_hist(run, [{'tid': 1, 'ev': ev, 'case': case}], 'crowd%d' % n, consts, engine='c03', parsers=names)
         crowd.append(n)
     run.extra['crowds_in_flight'] = crowd
+    # --- cold start: the first evaluations of a fresh interpreter, in several threads at the same moment
+    ncold = 0
+    for rep in range(6 if quick else 40):
+        case = {'kind': 'cold', 'n': [2, 4, 8][rep % 3], 'step': 1 + rep % 5, 'rep': rep}
+        ev, names = run_cold(lib, case)
+        core.validate_hist(run, [{'tid': 1, 'ev': ev, 'case': case}], 'cold%d' % rep, consts, engine='c03', parsers=names)
+        ncold += 1
+    run.extra['cold_starts'] = ncold
     run.exhaustive = True
     run.samples = [{'case': traces[3]['case']}, {'case': traces[-1]['case']}]
     return run.finish()
